@@ -279,6 +279,17 @@ def run_case(base, case, acc):
             acc.violation("C17/add_loopless/no-optimum-although-loop-free-optimum-exists", f"status {sol.status}; the loop-free optimum is {float(best)}", w())
             return
         if abs(sol.objective_value - float(best)) > 1e-5 * max(1.0, abs(float(best))):
+            # mechanism check: the implemented MILP bounds every energy variable by the
+            # largest flux bound M (1 <= |G_i| <= M); with coefficient ratios in the
+            # internal cycles beyond M that excludes sign patterns that are
+            # thermodynamically fine.  Proved by re-solving exactly with that cap.
+            M = max(max(abs(b) for b in r.bounds) for r in model.reactions)
+            st_c, best_c = oracles.loopless_opt(P, cyc, cyc.feasible_orientations(bounds, limit=6, gmax=M))
+            if st_c == "optimal" and abs(sol.objective_value - float(best_c)) <= 1e-5 * max(1.0, abs(float(best_c))):
+                worse = sol.objective_value < float(best) if model.objective_direction == "max" else sol.objective_value > float(best)
+                if worse:
+                    acc.violation("C17/add_loopless/energy-variables-capped-by-largest-flux-bound", f"optimum after add_loopless {sol.objective_value}, exact loop-free optimum {float(best)}; with |G_i| <= M = {M} the exact optimum is {float(best_c)}", w(M=M))
+                    return
             acc.violation("C17/add_loopless/not-the-loop-free-optimum", f"optimum after add_loopless {sol.objective_value}, exact loop-free optimum {float(best)} (plain optimum {float(res.obj)})", w())
             return
         maxb = max(max(abs(b) for b in r.bounds) for r in model.reactions)
